@@ -12,7 +12,7 @@ VERSIONS = ("3.7", "3.8", "3.9", "3.10")
 RULE = ("case (a) = a batch of flag words: subsets of the 18 flag bits known to the interpreter (quick: generated; thorough: "
         "ALL 2^18 subsets per interpreter), every single unknown bit 0-63, unknown bit + known subset; oracle: known-only "
         "word f -> to_flags_data(f) names exactly the set bits (names from dis.COMPILER_FLAG_NAMES/__future__ read by the "
-        "harness) and from_flags_data gives f back; any unknown bit -> to_flags_data must raise; case (b) = header "
+        "harness) and from_flags_data gives f back; any unknown bit -> to_flags_data must raise, and must still raise after `from_flags_data(...) | bit` arithmetic on a returned value; case (b) = header "
         "alteration (xor/or of bits 0-31 into co_flags, +-delta on argument counts / nlocals) of a family of base code "
         "objects: from_code raises, or to_code() reproduces co_flags and 12 other header fields exactly; non-trivial = "
         "batch containing a word with >=2 bits or an unknown bit, or an alteration the constructor accepted; distinct = "
